@@ -193,7 +193,13 @@ def translate(repo):
     txt += "def bom3 : UInt8 × UInt8 × UInt8 := (%s, %s, %s)\n\n" % (u8(int(boms[2][0], 16)), u8(int(boms[2][1], 16)), u8(b3))
     txt += "/-- index (0/1) of the low-order byte of a unit in the loop behind `bom1` / `bom2` (`c = b[lo] | b[hi] << 8`) -/\n"
     txt += "def lowIndex1 : Nat := %d\ndef lowIndex2 : Nat := %d\n\nend Gen.File\n" % (le_lo, be_lo)
-    return {"Gen/FileGen.lean": txt}
+    out = {"Gen/FileGen.lean": txt}
+    # AslModel/Utf.lean (C08's converters, used by text()) imports Gen/UnicodeGen.lean: make sure it exists
+    from lib import core
+    if not os.path.exists(os.path.join(core.LEAN, "Gen", "UnicodeGen.lean")):
+        from props import c08
+        out.update(c08.translate(repo))
+    return out
 
 
 FALLBACK = {}
